@@ -45,7 +45,9 @@ def main():
     try:
         copy = os.path.join(work, "repo")
         shutil.copytree("/repo", copy, ignore=shutil.ignore_patterns(".git", "__pycache__", "*.pyc", "_seed"))
-        env = dict(os.environ, PYTHONPATH=os.path.join(copy, "perception_eval"), OPENBLAS_NUM_THREADS="1", OMP_NUM_THREADS="1")
+        # the repository's plotting tests leave ~90 MB per run in the temp dir: keep it inside the scratch directory
+        os.makedirs(os.path.join(work, "tmp"), exist_ok=True)
+        env = dict(os.environ, PYTHONPATH=os.path.join(copy, "perception_eval"), OPENBLAS_NUM_THREADS="1", OMP_NUM_THREADS="1", TMPDIR=os.path.join(work, "tmp"))
         demo = os.path.join(a.src, "demo.py")
         patch = os.path.join(a.src, "patch.diff")
         rc0, out0, err0 = sh([PY, demo], cwd=copy, env=env, timeout=900)
